@@ -855,12 +855,23 @@ def module_names():
     return [(s, canon.get(s, s)) for s in stems]
 
 
+def module_id(modules, name):
+    """The key under which the interpreter files the module a program calls
+    `name` (bundled modules are filed under their lower-case file name)."""
+    if name in modules:
+        return name
+    for k in modules:
+        if k.lower() == name.lower():
+            return k
+    return name
+
+
 def task_tables(classmap):
     """Module tables, read off interpreters whose gate is held open."""
     def binds(env):
         return [{"name": n, "id": i, "priv": n.startswith("_")}
                 for n, i in sorted(direct_bindings(env, classmap))]
-    out = {"moduleBinds": {}, "moduleLoads": {}, "baseBinds": {}, "bootLoads": {}, "symbols": {}}
+    out = {"moduleBinds": {}, "moduleLoads": {}, "baseBinds": {}, "bootLoads": {}, "symbols": {}, "modname": {}}
     mods = module_names()
     with open_gate():
         for leg, key in ((False, "plain"), (True, "legacy")):
@@ -879,7 +890,9 @@ def task_tables(classmap):
                 out.setdefault("errors", []).append(f"require {name}: {type(e).__name__}")
                 continue
             after = it.base_environment.modules
-            out["moduleLoads"][name] = sorted((set(after) - before) | {name})
+            mid = module_id(after, name)        # the key the interpreter files the module under
+            out["modname"][mid] = name
+            out["moduleLoads"][mid] = sorted((set(after) - before) | {mid})
             for m, env in after.items():
                 out["moduleBinds"].setdefault(m, binds(env))
     for m in out["moduleBinds"]:
@@ -1038,7 +1051,7 @@ def action_program(act, data, k, it):
         else:
             prog = desc = call
     elif a == "require":
-        prog = desc = "require " + spelled(act["m"], act.get("alias") or "plain") + \
+        prog = desc = "require " + spelled(data["modname"].get(act["m"], act["m"]), act.get("alias") or "plain") + \
             (" unqualified" if act["form"] == "unq" else "")
     elif a == "foreign":
         prog, desc = foreign_program(act["spec"])
@@ -1054,7 +1067,7 @@ def action_program(act, data, k, it):
         um, prog = prog[4:].split("@prog:")
         desc = f"[user module: {um.strip()}] " + prog.replace("umK", "um")
     probe = data["natives"][data["probe"]]["fname"]
-    bootmod = data["bootmod"]
+    bootmod = data.get("modname", {}).get(data["bootmod"], data["bootmod"])
     bootsym = data["bootsym"]
 
     def fill(s, symbolic):
@@ -1287,7 +1300,7 @@ def task_calls(args):
         lookup = lambda s: it.environment.get(s)   # noqa: E731
         ref = lambda s: s                          # noqa: E731
     elif form == "unq":
-        menv = it.base_environment.modules.get(mod)
+        menv = it.base_environment.modules.get(module_id(it.base_environment.modules, mod))
         syms = sorted(s for s in (menv.getLocalSymbols() if menv else []) if not s.startswith("_"))
         lookup = lambda s: it.environment.get(s)   # noqa: E731
         ref = lambda s: s                          # noqa: E731
@@ -1565,9 +1578,11 @@ def extract(root, tier, seed, cases, pool=None, cands=None):
                         if r["isFunc"] and not forbidden[nid] and nid in bindable and nid != "bind_native")
     quick = tier == "quick"
     forb_ids = sorted(i for i in forbidden if forbidden[i] and i in bindable)
-    mods = tables["modules"]
-    hot = [m for m in mods if any(forbidden.get(b["id"], True) for b in tables["moduleBinds"].get(m, []))]
-    rest = [m for m in mods if m not in hot]
+    mods = tables["modules"]                   # the names a program uses
+    modname = tables["modname"]                # module id (key of the interpreter's module table) -> that name
+    mids = sorted(tables["moduleBinds"])
+    hot = [m for m in mids if any(forbidden.get(b["id"], True) for b in tables["moduleBinds"].get(m, []))]
+    rest = [m for m in mids if m not in hot]
     shadow_all = [f for f, _e, _t in SHADOW_FORMS]
     assign_all = [f for f, _t in ASSIGN_FORMS]
 
@@ -1606,6 +1621,7 @@ def extract(root, tier, seed, cases, pool=None, cands=None):
         "otherConfigs": ["00", "01"] if quick else ["00", "01", "10", "11"],
     }
     side = {"classmap": classmap, "forbidden": forbidden, "ids": sorted(natives), "modules": mods,
+            "modname": modname,
             "bootmod": bootmod, "bootsym": "", "probe": probe, "natives": data["natives"],
             "rows": natives, "info": info, "insecure": insecure, "touching": touching,
             "table_errors": tables.get("errors", [])}
@@ -1630,7 +1646,7 @@ def act_str(side, act):
         s = f"bind_native('{act['id']}'{al})"
         return s if act["env"] == "(session)" else f"[user module: {s}]"
     if a == "require":
-        return "require " + spelled(act["m"], act.get("alias") or "plain") + \
+        return "require " + spelled(side["modname"].get(act["m"], act["m"]), act.get("alias") or "plain") + \
             (" unqualified" if act["form"] == "unq" else "")
     if a == "other":
         return f"[host constructs Interpreter {act['m']} {act['form']}]"
@@ -1930,7 +1946,7 @@ def _run2(run, quick, root, pool, cpool, xpool, cases, cands):
     # ---- replay on the code
     wdata = {"classmap": side["classmap"], "forbidden": side["forbidden"], "ids": side["ids"],
              "natives": data["natives"], "probe": side["probe"], "bootmod": side["bootmod"],
-             "bootsym": side["bootsym"], "boot_reach": boot_reach}
+             "bootsym": side["bootsym"], "boot_reach": boot_reach, "modname": side["modname"]}
     edges_src.out = res.out = ""           # the TLC output is no longer needed
     if True:
         # the call sweeps contain the few slow invocations: start them first
@@ -2150,7 +2166,7 @@ def replay(run, case):
         side["bootsym"] = pick_bootsym(side)
         wdata = {"classmap": side["classmap"], "forbidden": side["forbidden"], "ids": side["ids"],
                  "natives": data["natives"], "probe": side["probe"], "bootmod": side["bootmod"],
-                 "bootsym": side["bootsym"]}
+                 "bootsym": side["bootsym"], "modname": side["modname"]}
         pool = Pool(os.path.join(root, "r"), 1)
         events, metas = [], []
         try:
